@@ -52,7 +52,7 @@ static int hbudget;
 static int reg_order[NI] = { 0, 1, 2, 3 };
 static int have_usr2;
 
-enum { C_REG, C_UNREG, C_CLEAN, C_EXIT, C_FORK };
+enum { C_REG, C_UNREG, C_CLEAN, C_EXIT, C_FORK, C_NOP };
 
 static int cur_loop(void)
 {
@@ -245,6 +245,8 @@ static void cmd_handler(void *_l)
 			mc_fail("sig-child", "child of loop %d ended with status 0x%x", l, st);
 		break;
 	}
+	case C_NOP:
+		break;
 	case C_CLEAN:
 		for (i = 0; i < NI; i++)
 			if (I[i].reg == 1 && I[i].thr == l)
@@ -366,6 +368,9 @@ static void driver(void *dummy)
 			sched_wait_flag(&burst_done);
 			burst_done = 0;
 			sched_signal_defer = 0;
+			/* both signals have arrived; their handlers may still be running (they are not atomic steps during a burst):
+			 * a round trip through loop 0's command event makes sure it is back in its loop before atomic steps resume */
+			command(0, C_NOP, 0);
 			sched_signal_atomic = 1;
 			break;
 		case 7: command(0, C_FORK, arg[c]); break;
